@@ -110,10 +110,17 @@ pub struct Evaluated {
 
 /// Executes one program and evaluates `prop` (plus, optionally, every other monitor for diagnostics).
 pub fn evaluate(prog: &Arc<Program>, prop: &str, cross: bool) -> Evaluated {
+    let t0 = Instant::now();
     let ex = execute(prog);
+    let t1 = Instant::now();
     let a = analyze(prog, &ex.trace);
+    let t2 = Instant::now();
     let cx = Ctx { a: &a, dels: deliveries(&a) };
+    let t3 = Instant::now();
     let (mut violations, mut cover) = run_monitor(prop, &cx);
+    if std::env::var("VERIF_SLOW_MS").is_ok() && t0.elapsed().as_millis() > 2000 {
+        eprintln!("  {}: execute {:?}, analyze {:?}, deliveries {:?}, monitor {:?}; {} events, {} runs, {} cmds", prog.name, t1 - t0, t2 - t1, t3 - t2, t3.elapsed(), ex.trace.len(), a.runs.len(), a.cmds.len());
+    }
     // which forms of the public API this execution went through (independent of the property under check)
     for c in a.cmds.iter() {
         match &c.act {
@@ -265,6 +272,17 @@ pub fn run_check(cfg: &Config) -> Outcome {
     let prop: &str = &cfg.prop;
     let thorough = cfg.tier == "thorough";
     let profile = profile_for(prop);
+    let deep_profile = {
+        let mut d = profile.clone();
+        d.ops = (d.ops.0 + 2, d.ops.1 * 2 + 2);
+        d.acts_per_op = (d.acts_per_op.0, d.acts_per_op.1 + 2);
+        d.scripts = (d.scripts.0 + 1, d.scripts.1 + 3);
+        d.runs_per_script = (d.runs_per_script.0, d.runs_per_script.1 + 2);
+        d.init_regs = (d.init_regs.0 + 2, d.init_regs.1 + 4);
+        d.fuel = d.fuel * 2;
+        d.app_reactors = (0, 3);
+        d
+    };
     let mut directed = directed_for(prop, thorough);
     if let Some(n) = cfg.directed_limit {
         if n < directed.len() {
@@ -326,10 +344,20 @@ pub fn run_check(cfg: &Config) -> Outcome {
                     Arc::new(directed[i].clone())
                 } else {
                     let k = (i - n_directed) as u64;
-                    Arc::new(gen_program(cfg.seed.wrapping_mul(1_000_003).wrapping_add(k), &profile))
+                    // thorough tier: every second random program is drawn from the deep variant of the profile
+                    // (about twice as many trees, longer bodies, more scripts and initial registrations, more fuel)
+                    let pr = if thorough && k % 2 == 1 { &deep_profile } else { &profile };
+                    Arc::new(gen_program(cfg.seed.wrapping_mul(1_000_003).wrapping_add(k), pr))
                 };
                 let cross = cfg.cross_every > 0 && i % cfg.cross_every == 0;
+                let t_prog = Instant::now();
                 let r = catch_unwind(AssertUnwindSafe(|| evaluate(&prog, prop, cross)));
+                if let Ok(ms) = std::env::var("VERIF_SLOW_MS") {
+                    let ms: u128 = ms.parse().unwrap_or(1000);
+                    if t_prog.elapsed().as_millis() > ms {
+                        eprintln!("slow program {}: {} ms", prog.name, t_prog.elapsed().as_millis());
+                    }
+                }
                 let mut g = lk(&agg);
                 match r {
                     Err(p) => {
@@ -511,6 +539,7 @@ pub fn run_check(cfg: &Config) -> Outcome {
             "directed_programs": n_directed,
             "random_programs_requested": n_random,
             "profile": profile.name,
+            "deep_profile_programs (thorough only: ops x2, longer bodies, more scripts/registrations, fuel x2)": if thorough { n_random / 2 } else { 0 },
             "programs_relevant": g.relevant,
             "programs_nontrivial": g.nontrivial,
             "trace_events_observed": g.events,
